@@ -6,14 +6,15 @@ use crate::refmodel::tree::{M, Kind, D};
 pub fn atoms() -> Vec<M> { vec![M::Leaf(V::Text("a".into())), M::Leaf(V::U(1)), M::Known(1)] }
 /// all trees of weight <= w over the plain atom alphabet (atoms re-used at several positions => equal digests at different positions)
 pub fn plain(w: usize) -> Vec<M> { let mut g = Gen::new(atoms()); let mut out = vec![]; for i in 1..=w { out.extend(g.env(i)) } out }
-/// same shapes, every atom instance given a unique marker so positions are distinguishable
+/// same shapes, every atom instance given a unique marker so positions are distinguishable; markers encode to >= 9 bytes so that
+/// a coincidental occurrence inside random ciphertext or a digest has negligible probability (< 2^-60 per search)
 pub fn marked(w: usize) -> Vec<M> { plain(w).into_iter().map(|m| { let mut k = 0; mark(&m, &mut k) }).collect() }
 pub fn mark(m: &M, k: &mut usize) -> M {
     match m {
-        M::Leaf(V::Text(_)) => { *k += 1; M::Leaf(V::Text(format!("m{:02}", *k))) }
-        M::Leaf(V::U(_)) => { *k += 1; M::Leaf(V::U(7000 + *k as u64)) }
+        M::Leaf(V::Text(_)) => { *k += 1; M::Leaf(V::Text(format!("marker-{:02}-0123456789", *k))) }
+        M::Leaf(V::U(_)) => { *k += 1; M::Leaf(V::U(0x4D4B_5200_0000_0000 + *k as u64)) }
         M::Leaf(v) => M::Leaf(v.clone()),
-        M::Known(_) => { *k += 1; M::Known(600 + *k as u64) }
+        M::Known(_) => { *k += 1; M::Known(0x4B56_4D00_0000_0000 + *k as u64) }
         M::Wrapped(e) => M::Wrapped(Box::new(mark(e, k))),
         M::Assertion(p, o) => { let p = mark(p, k); let o = mark(o, k); M::Assertion(Box::new(p), Box::new(o)) }
         M::Node(s, a) => { let s = mark(s, k); M::Node(Box::new(s), a.iter().map(|x| mark(x, k)).collect()) }
